@@ -22,6 +22,12 @@ CHECKS = {
          "Thesaurus term lists and (synonym, document) pair sets under exclusion bitmaps of every merge output are compared with the merge model; classes counted: thesaurus in several inputs, in some inputs only, all definitions deleted, merged-of-merged.", "§3 C13"),
  "C07": ("exploration", "runtime monitoring: bounded-exhaustive enumeration of postings sets, exclusions, flags and Next/Advance call paths + random reuse histories",
          "For N<=5 (quick) / N<=7 (thorough) every (P, E, chunk size, detail flags, encoding, residence) and every complete Next/Advance call path is executed on the real iterator (fresh and recycled objects) and compared with the model; larger random instances cover modes 1025/1026 and preallocation-reuse histories. Exhaustive up to the bound, exploration beyond it.", "§3 C07"),
+ "C10": ("exploration", "runtime monitoring: build histories on the pooled builder (reuse measured by hook) + concurrent builds under the race detector, full-surface oracle per build",
+         "Every segment of seeded 8-14 build histories (all ordered pairs of batch kinds, validator rejections, empty batches) is checked against its own batch on the full query surface; builder reuse is measured through a verif hook; the same histories run from 4-16 goroutines under the race detector.", "§3 C10"),
+ "C11": ("exploration", "runtime monitoring: race detector + per-call equality with precomputed sequential answers + visitor-stability monitor over concurrent reader programs",
+         "4-32 goroutines run seeded reader programs (postings, stored visits incl. early-stopping and blocking visitors, ids, doc values, thesauri, merges) over fresh shared segments; every answer is compared with the sequential answer, bytes handed to visitors are re-checked after yielding, and the race detector observes all zapx accesses.", "§3 C11"),
+ "C12": ("exploration", "runtime monitoring: thesaurus oracle (term lists, pair sets under exclusion bitmaps, prealloc reuse) over seeded synonym batches",
+         "For every thesaurus, term and exclusion bitmap of every generated batch the exact set of (synonym, document) pairs is compared with the model, in memory and after persist+open.", "§3 C12"),
 }
 NOT_YET = {}
 
